@@ -12,7 +12,7 @@ from vf.props import c02, common
 ID = "C11"
 LEVEL = "exploration"
 RULE = (
-    "Hypothesis draws an image geometry (1..30 lines, 1..6 pixels, both sample types), "
+    "Hypothesis draws an image geometry (1..30 lines, 1..6 pixels, a quarter 16..96 pixels wide, both sample types), "
     "records_per_chunk from 1..N+2 and large values, and 1-4 selections (C02's strategies: ints, "
     "slices with any step, index arrays, masks, vectorised indexers, chains) on a product served "
     "by the instrumented vtrace:// filesystem, which records every open / seek / read with "
@@ -36,7 +36,8 @@ JOBS = {"quick": 2, "thorough": 16}
 @st.composite
 def cases(draw):
     lines = draw(st.integers(1, 30))
-    pixels = draw(st.integers(1, 6))
+    # mostly narrow images; a quarter are wide, so that a column selection can be a small window
+    pixels = draw(st.one_of(st.integers(1, 6), st.integers(1, 6), st.integers(1, 6), st.sampled_from([16, 40, 64, 96])))
     rpc = draw(st.one_of(st.integers(1, lines + 2), st.sampled_from([1, 2, 1024, 2**31])))
     sels = []
     for _ in range(draw(st.integers(1, 4))):
